@@ -40,7 +40,7 @@ def rand_unimodular(rng, k=3, maxent=2):
 
 def rand_cell(rng, kind=None):
     """returns (cell, kind); all entries dyadic"""
-    kinds = ["orthogonal", "triclinic", "sheared", "needle", "plate", "rotated"]
+    kinds = ["orthogonal", "triclinic", "sheared", "needle", "plate", "rotated", "leaning"]
     kind = kind or kinds[int(rng.integers(0, len(kinds)))]
     L = rng.uniform(1.0, 6.0, 3)
     if kind == "orthogonal":
@@ -55,6 +55,15 @@ def rand_cell(rng, kind=None):
     elif kind == "plate":
         cell = np.diag([rng.uniform(5, 10), rng.uniform(5, 10), rng.uniform(0.6, 1.2)]) + rng.uniform(-0.1, 0.1, (3, 3))
         cell = cell[rng.permutation(3)]
+    elif kind == "leaning":
+        # a short vector p and a long vector that leans along it (k·p + something perpendicular): with p periodic and the long
+        # vector not, atoms of the cell are many periods of p apart
+        p_ = np.zeros(3)
+        p_[0] = rng.uniform(1.0, 3.0)
+        k = rng.integers(2, 9)
+        long_ = k * p_ + np.array([0.0, rng.uniform(3.0, 8.0), 0.0])
+        third = np.array([rng.uniform(-1, 1), rng.uniform(-1, 1), rng.uniform(2.0, 6.0)])
+        cell = np.array([p_, long_, third])[rng.permutation(3)]
     else:
         q = rng.normal(size=4)
         q /= np.linalg.norm(q)
